@@ -43,7 +43,8 @@ EXPECTED_PROBES = ["probe_get_ok", "probe_post_ok", "probe_unknown_path", "probe
                    "probe_klongloop_evaluation_beside_requests", "probe_ws_binary_frame",
                    "probe_handler_rebound_to_non_function", "probe_request_while_handler_is_not_a_function", "probe_post_with_query_string",
                    "probe_ws_send_mutated_dict", "probe_ws_two_connections",
-                   "probe_second_web_server", "probe_request_to_second_web_server", "probe_other_web_server_after_webc", "probe_web_bind_address_text"]
+                   "probe_second_web_server", "probe_request_to_second_web_server", "probe_other_web_server_after_webc", "probe_web_bind_address_text",
+                   "probe_handler_answers_a_live_dictionary"]
 WALL_CAP = {"quick": 400, "thorough": 3600}
 PORT = 8080
 PORT2 = 8081
@@ -67,7 +68,8 @@ KEYS = ["a", "b", "k k", "é", "x&y", "q=1", "n"]
 VALS = ["1", "hello", "é z", "a+b", "100%", "", "a&b=c", "中"]
 # handler bodies: (source after the rec call, raises?)
 BODIES = [('"one"', False), ("42", False), ('x?"a"', False), ("[1 2 3]", False), ("2.5", False), ('"t:",(x?"b")', False), ("boom(1)", True),
-          ("(:{[1 2]})@7", True)]      # the last one fails with a KeyError (index of a missing dictionary key)
+          ("(:{[1 2]})@7", True),      # fails with a KeyError (index of a missing dictionary key)
+          (".x(3)", True)]             # leaves its evaluation through an exit: a failing handler like any other (400, server goes on)
 
 
 def _fresh_modules():
@@ -96,8 +98,14 @@ def scenario(ch, cfg):
 
     bg = bool(cfg.get("bg"))
 
+    snap_by_obj = {}
+
     def rec(x, y):
         reclog.append((int(x), dict(y)))
+        if bg:
+            # what the live dictionary gd looks like while this handler runs (nothing else evaluates meanwhile): the text
+            # of the handler's result, should the handler answer gd
+            snap_by_obj[id(reclog[-1][1])] = str(srv.klong["gd"])
         if bg:
             if inflight["bg"]:
                 stats["probe_handler_started_inside_a_klongloop_evaluation"] += 1
@@ -122,6 +130,12 @@ def scenario(ch, cfg):
         inflight["bg"] -= 1
         return 0
     srv.klong["bgy"] = bgy
+    bgn = {"n": 0}
+
+    def bgnext(x):
+        bgn["n"] += 1
+        return bgn["n"]
+    srv.klong["bgnext"] = bgnext
     twin["rec"] = lambda x, y: 1
     # ---- route table
     nget = ch.draw(4, "nget")
@@ -136,6 +150,10 @@ def scenario(ch, cfg):
             path = avail.pop(ch.draw(len(avail), "path"))
             hid += 1
             body, raises = ch.pick(BODIES, "body")
+            if bg and ch.draw(3, "live-dict-result") == 0:
+                # the handler answers a live global dictionary that the klong loop's next evaluation amends in place
+                body, raises = "gd", False
+                stats["probe_handler_answers_a_live_dictionary"] += 1
             name = f"h{hid}"
             defs[name] = {"id": hid, "body": body, "raises": raises, "version": 0}
             routes[method][path] = name
@@ -161,7 +179,9 @@ def scenario(ch, cfg):
         d = defs[name]
         return f'{name}::{{rec({d["id"] + 100 * d["version"]};x);{d["body"]}}}'
 
-    boot_src = [hsrc(n) for n in defs] + ["get:::{}", "post:::{}"]
+    boot_src = [hsrc(n) for n in defs] + (["gd:::{}"] if bg else []) + ["get:::{}", "post:::{}"]
+    if bg:
+        twin("gd:::{}")
     for path, name in routes["GET"].items():
         boot_src.append(f'get,"{path}",{name}')
     for path, name in routes["POST"].items():
@@ -258,6 +278,8 @@ def scenario(ch, cfg):
         return (f"POST {path} HTTP/1.1\r\nHost: sim\r\nContent-Type: application/x-www-form-urlencoded\r\n"
                 f"Content-Length: {len(body)}\r\n\r\n").encode() + body
 
+    pending_req = {"raw": None, "routes": None}
+
     async def read_response(r):
         head = await r.readuntil(b"\r\n\r\n")
         lines = head.split(b"\r\n")
@@ -274,8 +296,10 @@ def scenario(ch, cfg):
             conn = await asyncio.open_connection("127.0.0.1", cur["port"])
         r, wr = conn
         wr.write(raw)
+        pending_req["raw"], pending_req["routes"] = raw, cur["routes"]
         try:
             res = await read_response(r)
+            pending_req["raw"] = None
         except (asyncio.IncompleteReadError, ConnectionError) as e:
             res = ("closed", type(e).__name__)
         if not keep:
@@ -313,6 +337,12 @@ def scenario(ch, cfg):
                 viol("C20:http:handler-not-invoked", f"{tag} {method} {path} {params!r}: no recorder entry; response {res}")
             else:
                 viol("C20:http:handler-invoked-more-than-once", f"{tag} {method} {path}: {len(mine)} entries")
+        if defs[name]["body"] == "gd" and len(mine) == 1 and status == 200:
+            text = snap_by_obj.get(id(mine[0][1]), text)
+            if res[0] == 200 and res[1] != text:
+                viol("C20:http:body-shows-a-later-amendment-of-the-result", f"{tag} {method} {path}: the handler answered the dictionary gd, which read {text!r} "
+                     f"when the handler returned; the body is {res[1]!r} (amended by a later evaluation on the klong loop)")
+                return mine
         if res[0] != status:
             viol(f"C20:http:status-{res[0]}-expected-{status}", f"{tag} {method} {path} {params!r} -> {res}")
         elif status == 200 and res[1] != text:
@@ -515,7 +545,9 @@ def scenario(ch, cfg):
         task_box["t"] = asyncio.ensure_future(driver(), loop=H)
     H.call_soon_threadsafe(start)
     if bg:
-        srv.on_klongloop(lambda: srv.klong("bgf::{[a];a::x*2;bgy(0);a+x}"))
+        srv.on_klongloop(lambda: srv.klong("bgf::{[a];a::x*2;gd,x,,bgnext(0);bgy(0);a+x}"))
+
+        bg_gap = ch.draw(2, "bg-gap")
 
         def bgjob(n):
             if done["flag"] or n <= 0:
@@ -529,7 +561,8 @@ def scenario(ch, cfg):
             except BaseException as e:   # noqa
                 bgres.append((arg, "exc", f"{type(e).__name__}: {str(e)[:60]}"))
             stats["probe_klongloop_evaluation_beside_requests"] += 1
-            srv.klongloop.call_later(0.0005, bgjob, n - 1)
+            # the next evaluation is either due at once (the klong loop has a backlog) or a little later
+            srv.klongloop.call_later(0.0005 if bg_gap else 0, bgjob, n - 1)
         srv.klongloop.call_soon_threadsafe(bgjob, 60)
     reason = w.run(until=lambda: done["flag"] or (task_box.get("t") is not None and task_box["t"].done()), max_steps=60000, max_time=600.0)
     t = task_box.get("t")
@@ -544,7 +577,16 @@ def scenario(ch, cfg):
                  f"were being served gave {kind} {val!r}, expected {3 * arg}")
             break
     if not done["flag"]:
-        viol(f"C20:http:no-progress:{reason}", f"driver stuck after {log[-2:]} ({w.steps} steps, t={w.now})")
+        raw = pending_req["raw"]
+        hname = None
+        if raw:
+            meth, target = raw.split(b" ", 2)[:2]
+            hname = pending_req["routes"].get(meth.decode(), {}).get(target.decode("latin1").split("?")[0])
+        if hname is not None and defs[hname]["body"] == ".x(3)":
+            viol("C20:http:request-never-answered:handler-left-through-an-exit", f"{raw[:40]!r}: the handler {hname}::{{...;.x(3)}} fails by leaving its evaluation "
+                 f"through an exit; the request is never answered (no 400) and the server stops serving ({reason}; {w.steps} steps, t={w.now})")
+        else:
+            viol(f"C20:http:no-progress:{reason}", f"driver stuck after {log[-2:]} ({w.steps} steps, t={w.now}); request in flight: {raw[:60] if raw else None!r}")
     frag = stats.get("net_fragments", 0) > 0
     nontrivial = len(steps) >= 2 and (frag or any(s in ("raising", "disconnect", "unknown", "wrongmethod") for s in steps))
     sample = {"mode": "http", "routes": routes, "handlers": {n: d["body"] for n, d in defs.items()}, "steps": steps, "log": log[:20], "webc": do_webc}
